@@ -848,7 +848,9 @@ func c08RunScript(t *testing.T, rc c08ScriptRecipe, em *Emitter) []c08Shot {
 				}
 				if len(A.propOrd) > 0 && r.Chance(50) {
 					if e, ok := A.props[A.propOrd[r.Intn(len(A.propOrd))]]; ok && !noSurface[e.res.WorkID] {
-						o.SurfacedProposals = append(o.SurfacedProposals, []ocr2keepers.CoordinatedBlockProposal{{UpkeepID: e.res.UpkeepID, Trigger: e.res.Trigger, WorkID: e.res.WorkID}})
+						sp := ocr2keepers.CoordinatedBlockProposal{UpkeepID: e.res.UpkeepID, Trigger: e.res.Trigger, WorkID: e.res.WorkID}
+						c08StampWithView(r, &sp, A.hist) // coordinated on a recent block of the view
+						o.SurfacedProposals = append(o.SurfacedProposals, []ocr2keepers.CoordinatedBlockProposal{sp})
 					}
 				}
 				prev = &o
@@ -969,6 +971,9 @@ func c08RunScript(t *testing.T, rc c08ScriptRecipe, em *Emitter) []c08Shot {
 				{UpkeepID: xr.UpkeepID, Trigger: xr.Trigger, WorkID: xr.WorkID},
 				{UpkeepID: yr.UpkeepID, Trigger: yr.Trigger, WorkID: yr.WorkID},
 			}}}
+			for i := range o.SurfacedProposals[0] {
+				c08StampWithView(r, &o.SurfacedProposals[0][i], A.hist)
+			}
 			prev = &o
 			if hit {
 				A.hook.mu.Lock()
